@@ -116,8 +116,16 @@ var hashOf = map[string]crypto.Hash{
 
 func isRSAKey(k string) bool { return fix.Get(k).RSA() != nil }
 
+// viaOptions as Method: signing is configured the way samlsp users do it - samlsp.Options{SignRequest:
+// true} and NO explicit SignatureMethod; the ServiceProvider (and Middleware) of the case are then
+// built by samlsp.DefaultServiceProvider / samlsp.New, and the method is whatever that leaves in place.
+const viaOptions = "(samlsp.Options.SignRequest)"
+
 // expectation: "sign" (method fits the key), "refuse" (mismatch or unknown).
 func expectation(c Case) string {
+	if c.Method == viaOptions {
+		return "sign" // "signing configured" = SignRequest: true, for every key the fixtures offer
+	}
 	for _, m := range rsaMethods {
 		if c.Method == m {
 			if isRSAKey(c.Key) {
@@ -187,7 +195,9 @@ func gen(t *rapid.T) Case {
 		SSO:        genEndpoint(t, "sso"),
 		SLO:        genEndpoint(t, "slo"),
 	}
-	switch rapid.IntRange(0, 9).Draw(t, "methodclass") {
+	switch rapid.IntRange(0, 10).Draw(t, "methodclass") {
+	case 10:
+		c.Method = viaOptions
 	case 0:
 		c.Method = rapid.SampledFrom(unknownMethods).Draw(t, "unknown")
 	case 1, 2: // the other family: mismatch
@@ -218,7 +228,7 @@ func gen(t *rapid.T) Case {
 		all := append(append(append([]string{}, rsaMethods...), ecMethods...), unknownMethods...)
 		n := rapid.IntRange(1, 3).Draw(t, "nprior")
 		for i := 0; i < n; i++ {
-			c.Prior = append(c.Prior, Prior{Method: rapid.SampledFrom(all).Draw(t, "priormethod"), Msg: rapid.SampledFrom(msgs).Draw(t, "priormsg")})
+			c.Prior = append(c.Prior, Prior{Method: rapid.SampledFrom(append(all, viaOptions)).Draw(t, "priormethod"), Msg: rapid.SampledFrom(msgs).Draw(t, "priormsg")})
 		}
 	}
 	if rapid.IntRange(0, 2).Draw(t, "hasctx") == 0 {
@@ -366,6 +376,53 @@ func (f fixedTracker) GetTrackedRequest(*http.Request, string) (*samlsp.TrackedR
 type parties struct {
 	sp *saml.ServiceProvider
 	mw *samlsp.Middleware
+	// the SignatureMethod samlsp's constructors left in place (only meaningful for viaOptions steps)
+	defMethod, mwDefMethod string
+}
+
+func usesOptions(c Case) bool {
+	if c.Method == viaOptions {
+		return true
+	}
+	for _, pr := range c.Prior {
+		if pr.Method == viaOptions {
+			return true
+		}
+	}
+	return false
+}
+
+func optionsOf(c Case, md *saml.EntityDescriptor) samlsp.Options {
+	k := fix.Get(c.Key)
+	opts := samlsp.Options{EntityID: c.EntityID, URL: mustURL("https://sp.example.com/"), Key: k.Key, Certificate: k.Cert, IDPMetadata: md,
+		SignRequest: true, ForceAuthn: c.ForceAuthn == "true", UseArtifactResponse: c.MWArtifact, Intermediates: intermediatesOf(c.Intermediates)}
+	if c.MetaVary&1 != 0 {
+		opts.LogoutBindings = []string{saml.HTTPRedirectBinding, saml.HTTPPostBinding}
+	}
+	if c.AuthnContext != "" {
+		opts.RequestedAuthnContext = &saml.RequestedAuthnContext{Comparison: "exact", AuthnContextClassRef: c.AuthnContext}
+	}
+	return opts
+}
+
+// newParties builds the one ServiceProvider value of a case: a struct literal, or - when a step
+// configures signing through samlsp.Options - what samlsp.DefaultServiceProvider returns.
+func newParties(c Case) *parties {
+	if !usesOptions(c) {
+		return &parties{sp: buildSP(c)}
+	}
+	sp := samlsp.DefaultServiceProvider(optionsOf(c, buildSP0(c).IDPMetadata))
+	return &parties{sp: &sp, defMethod: sp.SignatureMethod}
+}
+
+func (p *parties) methodOf(c Case) string {
+	if c.Method != viaOptions {
+		return c.Method
+	}
+	if c.Msg == "mw" {
+		return p.mwDefMethod
+	}
+	return p.defMethod
 }
 
 func offered(c Case, binding string) bool { return c.IDPOffers == "" || c.IDPOffers == binding }
@@ -374,7 +431,6 @@ func (p *parties) middleware(c Case) (*samlsp.Middleware, error) {
 	if p.mw != nil {
 		return p.mw, nil
 	}
-	k := fix.Get(c.Key)
 	md := buildSP0(c).IDPMetadata
 	for i := range md.IDPSSODescriptors {
 		var sso []saml.Endpoint
@@ -394,18 +450,12 @@ func (p *parties) middleware(c Case) (*samlsp.Middleware, error) {
 		}
 		md.IDPSSODescriptors[i].SingleSignOnServices = sso
 	}
-	opts := samlsp.Options{EntityID: c.EntityID, URL: mustURL("https://sp.example.com/"), Key: k.Key, Certificate: k.Cert, IDPMetadata: md,
-		SignRequest: true, ForceAuthn: c.ForceAuthn == "true", UseArtifactResponse: c.MWArtifact, Intermediates: intermediatesOf(c.Intermediates)}
-	if c.MetaVary&1 != 0 {
-		opts.LogoutBindings = []string{saml.HTTPRedirectBinding, saml.HTTPPostBinding}
-	}
-	if c.AuthnContext != "" {
-		opts.RequestedAuthnContext = &saml.RequestedAuthnContext{Comparison: "exact", AuthnContextClassRef: c.AuthnContext}
-	}
+	opts := optionsOf(c, md)
 	m, err := samlsp.New(opts)
 	if err != nil {
 		return nil, err
 	}
+	p.mwDefMethod = m.ServiceProvider.SignatureMethod
 	switch c.MWBinding {
 	case "redirect":
 		m.Binding = saml.HTTPRedirectBinding
@@ -441,7 +491,7 @@ func run(p *parties, c Case) (o outcome) {
 		o.snap = strings.Clone(o.wire())
 	}()
 	sp := p.sp
-	sp.SignatureMethod = c.Method
+	sp.SignatureMethod = p.methodOf(c)
 	sp.HTTPClient = nil
 	switch c.Msg {
 	case "mw":
@@ -450,7 +500,7 @@ func run(p *parties, c Case) (o outcome) {
 			o.err = fmt.Errorf("harness: samlsp.New: %v", err)
 			return o
 		}
-		m.ServiceProvider.SignatureMethod = c.Method
+		m.ServiceProvider.SignatureMethod = p.methodOf(c)
 		path := c.MWPath
 		if path == "" {
 			path = "/"
@@ -765,6 +815,9 @@ func check(c Case) pbt.Result {
 	exp := expectation(c)
 	keyClass := "key:" + c.Key
 	methodClass := "method:unknown"
+	if c.Method == viaOptions {
+		methodClass = "method:samlsp-default"
+	}
 	if h, ok := hashOf[c.Method]; ok {
 		fam := "rsa"
 		if strings.Contains(c.Method, "ecdsa") {
@@ -801,7 +854,7 @@ func check(c Case) pbt.Result {
 	}
 
 	// ---- all creations first, on ONE ServiceProvider / Middleware value; nothing is judged yet
-	p := &parties{sp: buildSP(c)}
+	p := newParties(c)
 	type step struct {
 		c Case
 		o outcome
@@ -864,6 +917,11 @@ func check(c Case) pbt.Result {
 // name of an exclusion class (development switches), or two empty strings.
 func judge(p *parties, c Case, o outcome) (msg string, excluded string) {
 	exp := expectation(c)
+	if c.Method == viaOptions {
+		// judged under the method the constructor left in place; "" (or a method that does not fit
+		// the key) then shows as what it is: no signing key published, unsigned messages, errors
+		c.Method = p.methodOf(c)
+	}
 	if o.pan != nil {
 		return fmt.Sprintf("%s with key %s and method %q panics: %v", c.Msg, c.Key, c.Method, o.pan), ""
 	}
@@ -1083,6 +1141,26 @@ func enumMiddleware(_ string, emit func(Case)) {
 	}
 }
 
+// enumViaOptions: signing configured through samlsp.Options{SignRequest: true} only, for every key the
+// fixtures offer x every message kind (middleware included), alone and after an explicitly configured step.
+func enumViaOptions(_ string, emit func(Case)) {
+	ep := "https://idp.example.org/saml"
+	for _, k := range keys {
+		for _, kind := range msgs {
+			for _, inter := range []int{0, 1} {
+				c := Case{Key: k, Method: viaOptions, Msg: kind, RelayState: "rs x", NameID: "user@example.com", RequestID: "id-123", Artifact: "AAQAAMFb", SSO: ep, SLO: ep, Intermediates: inter, IDPOffers: []string{"", "post"}[inter], MWPath: "/app"}
+				emit(c)
+			}
+			fit := rsaMethods[1]
+			if !isRSAKey(k) {
+				fit = ecMethods[3]
+			}
+			c := Case{Key: k, Method: viaOptions, Msg: kind, RelayState: "rs", NameID: "user@example.com", RequestID: "id-123", Artifact: "AAQAAMFb", SSO: ep, SLO: ep, MWPath: "/", Prior: []Prior{{Method: fit, Msg: kind}, {Method: viaOptions, Msg: "authn-post"}}}
+			emit(c)
+		}
+	}
+}
+
 // enumMetadataFeeds: every message kind x RSA / ECDSA x Intermediates 0/1/2 x ResponseLocation absent /
 // same / other on the IdP endpoints x the other fields that feed Metadata().
 func enumMetadataFeeds(_ string, emit func(Case)) {
@@ -1127,9 +1205,9 @@ var prop = &pbt.Prop[Case]{
 	Gen:   gen,
 	Check: check,
 	Reset: fix.Reset,
-	Enums: []pbt.Enum[Case]{{Name: "method-x-key-x-message-grid", Each: enumGrid}, {Name: "carriage-return-in-text-contents", Each: enumCRText}, {Name: "sequences-on-one-sp-and-request-options", Each: enumSequences}, {Name: "middleware-binding-x-idp-offers-x-method", Each: enumMiddleware}, {Name: "intermediates-x-responselocation-x-metadata-fields", Each: enumMetadataFeeds}},
+	Enums: []pbt.Enum[Case]{{Name: "method-x-key-x-message-grid", Each: enumGrid}, {Name: "carriage-return-in-text-contents", Each: enumCRText}, {Name: "sequences-on-one-sp-and-request-options", Each: enumSequences}, {Name: "middleware-binding-x-idp-offers-x-method", Each: enumMiddleware}, {Name: "intermediates-x-responselocation-x-metadata-fields", Each: enumMetadataFeeds}, {Name: "signing-configured-through-samlsp-options-x-key-x-message", Each: enumViaOptions}},
 	Assumptions: []string{
-		"SignatureMethod \"\" means signing is not configured and is outside this property",
+		"SignatureMethod \"\" set by the application means signing is not configured and is outside this property; samlsp.Options{SignRequest: true} without an explicit method IS signing configured, for every key: the ServiceProvider / Middleware are then built by samlsp.DefaultServiceProvider / samlsp.New and judged under the method those leave in place",
 		"SP Intermediates (0..2 certificates) are configured; the verification certificate is the FIRST DER value of the first X509Certificate of the published signing key descriptor, as a relying party reads it; what the library appends after it in the same element is not judged",
 		"IdP endpoints carry no / an equal / a different ResponseLocation; which of the two the SP uses as destination is not judged here, only that the signature verifies over what is emitted",
 		"literal TAB / LF / CR inside attribute-position contents (request ID -> InResponseTo; entity ID -> SPNameQualifier) are counted, not judged: XML attribute-value normalisation, property silent",
